@@ -240,14 +240,14 @@ pub fn subchecks(tier: Tier) -> Vec<SubCheck> {
         generated(
             "parse_texts_beyond_raw_capacity",
             "texts whose raw block hashes have up to ~400 characters (lengths aimed at the capacities before and after collapsing) parsed directly into FuzzyHash / LongFuzzyHash: accepted exactly when the run-collapsed block hashes fit, and then equal to the reference run-collapser; non-trivial = a raw block hash longer than a capacity; distinct by text",
-            tier.pick(300_000, 4_000_000),
+            tier.pick(1_200_000, 12_000_000),
             || (0u8..31, gens::block_hash_text(), gens::block_hash_text(), gens::text_tail()).prop_map(|(log, bh1, bh2, tail)| TextCase { log, bh1, bh2, tail }),
             eval_text,
         ),
         generated(
             "routes_agree",
             "raw hashes as run layouts (both capacities): normalize(), normalize_in_place(), clone_normalized(), From, from_raw_form, parsing the raw text into the normalising type, dual from object / from text: all valid, equal to the reference run-collapser and full_eq to each other; idempotence; is_normalized; non-trivial = at least one run longer than 3; distinct by text",
-            tier.pick(300_000, 4_000_000),
+            tier.pick(1_200_000, 12_000_000),
             || prop_oneof![2 => gens::raw_hash(64), 1 => gens::raw_hash(32)].prop_map(|h| Case { h }),
             eval,
         ),
